@@ -267,6 +267,9 @@ type Options struct {
 	VotingReward bool // decorate the block reward with the DPoS voting reward
 	VerifySig    bool
 	Timestamp    int64
+	// MakeConsensus, when set, supplies the ChainConsensus instead of the recording stub (e.g. the real DPoS
+	// Status); it is called after the chain service exists and before the actors start.
+	MakeConsensus func(cs *chain.ChainService, hub *component.ComponentHub, cfg *config.Config) (consensus.ChainConsensus, error)
 }
 
 type Node struct {
@@ -280,6 +283,7 @@ type Node struct {
 	RPC   *Recorder
 	P2P   *Recorder
 	Cons  *StubConsensus
+	Real  consensus.ChainConsensus // set when Options.MakeConsensus supplied the consensus
 	BV    types.BlockVersionner
 	Peer  types.PeerID
 	alive bool
@@ -371,7 +375,17 @@ func Start(o Options) (n *Node, err error) {
 	if best, _ := cs.GetBestBlock(); best != nil {
 		n.Cons.best = best
 	}
-	cs.SetChainConsensus(n.Cons)
+	n.Hub = component.NewComponentHub()
+	if o.MakeConsensus != nil {
+		cc, err := o.MakeConsensus(cs, n.Hub, cfg)
+		if err != nil {
+			return nil, err
+		}
+		n.Real = cc
+		cs.SetChainConsensus(cc)
+	} else {
+		cs.SetChainConsensus(n.Cons)
+	}
 	if o.VotingReward {
 		if err := dpos.InitVPR(cs.SDB().GetStateDB()); err != nil {
 			return nil, err
@@ -379,7 +393,6 @@ func Start(o Options) (n *Node, err error) {
 		chain.DecorateBlockRewardFn(dpos.VerifSendVotingReward)
 	}
 
-	n.Hub = component.NewComponentHub()
 	n.Sync = NewRecorder(message.SyncerSvc)
 	n.RPC = NewRecorder(message.RPCSvc)
 	n.P2P = NewRecorder(message.P2PSvc)
